@@ -457,6 +457,22 @@ func structuralCorruptions(img []byte, ps int, res *dec.Result, t *sim.Tape) []c
 				swapBranch(b, po, i)
 			}})
 		}
+		if flags == dec.FlagBranch && cnt >= 2 {
+			// a child's first key smaller than its parent's separator: make the
+			// first key of child i (i >= 1) sort below everything
+			i := 1 + t.Intn(cnt-1)
+			eo := po + dec.PageHeaderSize + i*dec.BranchElemSize
+			child := le.Uint64(img[eo+8:])
+			co := pageOff(child)
+			if co+dec.PageHeaderSize+dec.LeafElemSize <= len(img) && le.Uint16(img[co+8:]) == dec.FlagLeaf && le.Uint16(img[co+10:]) >= 1 {
+				keyPos := co + dec.PageHeaderSize + int(le.Uint32(img[co+dec.PageHeaderSize+4:]))
+				if ks := le.Uint32(img[co+dec.PageHeaderSize+8:]); ks > 0 && keyPos < len(img) && img[keyPos] != 0 {
+					out = append(out, corruption{"key-order", fmt.Sprintf("leaf page %d (child %d of branch %d): first key made smaller than the parent's separator", child, i, id), func(b []byte) {
+						b[keyPos] = 0
+					}})
+				}
+			}
+		}
 		if flags == dec.FlagLeaf && cnt >= 2 {
 			i := t.Intn(cnt - 1)
 			out = append(out, corruption{"key-order", fmt.Sprintf("leaf page %d: elements %d and %d swapped", id, i, i+1), func(b []byte) {
